@@ -116,37 +116,57 @@ func propC11(c *Ctx) {
 	}
 	for _, name := range []string{"Integration.processLog", "Integration.processTx"} {
 		fn := w.Fn("dig", name)
+		// rows are made here, or by a constructor the function calls that keeps the row in an object
+		// (`c := ig.candidate(…)` with candidate.row = make([]any, len(ig.coldefs)))
 		var rowsMade []*ssa.MakeSlice
-		allInstrs(fn, func(in ssa.Instruction) {
-			if ms, ok := in.(*ssa.MakeSlice); ok {
+		res11 := NewResolver(w)
+		scan := []*ssa.Function{fn}
+		for _, ci := range callsIn(fn) {
+			if h := staticCallee(ci); h != nil && h.Blocks != nil && isRepoFunc(h) && h.Pkg == fn.Pkg && h != fn {
+				scan = append(scan, h)
+			}
+		}
+		seenFn := map[*ssa.Function]bool{}
+		for _, f := range scan {
+			if seenFn[f] {
+				continue
+			}
+			seenFn[f] = true
+			allInstrs(f, func(in ssa.Instruction) {
+				ms, ok := in.(*ssa.MakeSlice)
+				if !ok {
+					return
+				}
+				if f != fn {
+					// only a slice that ends up in a row field counts for a callee
+					isRowOfField := false
+					for _, ref := range *ms.Referrers() {
+						if st, ok := ref.(*ssa.Store); ok && st.Val == ssa.Value(ms) {
+							if lf, _ := fieldOf(st.Addr); lf != nil && rowSliceField(res11, lf) {
+								isRowOfField = true
+							}
+						}
+					}
+					if !isRowOfField {
+						return
+					}
+				}
 				if arg, ok := lenArg(ms.Len); ok && isLoadOfField(arg, fDefs) {
 					rowsMade = append(rowsMade, ms)
 				} else if sl, ok := ms.Type().Underlying().(*types.Slice); ok && types.IsInterface(sl.Elem()) {
 					c.Violation("R11.1", fnName(fn)+"/row-length", ms.Pos(), "a row is made with a length other than len(ig.coldefs)")
 				}
-			}
-		})
+			})
+		}
 		nSt := 0
-		for _, row := range rowsMade {
-			for _, ref := range *row.Referrers() {
-				ia, ok := ref.(*ssa.IndexAddr)
-				if !ok {
-					continue
-				}
-				for _, r2 := range *ia.Referrers() {
-					st, ok := r2.(*ssa.Store)
-					if !ok || st.Addr != ssa.Value(ia) {
-						continue
-					}
-					nSt++
-					// index is the induction variable of a loop over ig.coldefs
-					idxOK := isInduction(ia.Index) && len(loopExitEdgesField(fn, ia.Index, fDefs)) > 0
-					// the value derives from coldefs[sameIndex]
-					valOK := derivesFromDef(st.Val, ia.Index, fDefs, 0)
-					c.Check("R11.1", fmt.Sprintf("%s/cell-store#%d", fnName(fn), nSt), st.Pos(), idxOK && valOK,
-						fmt.Sprintf("row[k] = v with k the loop index over coldefs (%v) and v computed from coldefs[k] (%v)", idxOK, valOK))
-				}
-			}
+		for _, cs := range cellStoresOf(res11, fn) {
+			nSt++
+			// index is the induction variable of a loop over ig.coldefs
+			idxOK := isInduction(cs.idx) && len(loopExitEdgesField(fn, cs.idx, fDefs)) > 0
+			// the value derives from coldefs[sameIndex]
+			valOK := derivesFromDef(cs.val, cs.idx, fDefs, 0)
+			c.Check("R11.1", fmt.Sprintf("%s/cell-store#%d", fnName(fn), nSt), instrPos(cs.at), idxOK && valOK,
+				fmt.Sprintf("row[k] = v with k the loop index over coldefs (%v) and v computed from coldefs[k] (%v)", idxOK, valOK))
 		}
 		if len(rowsMade) == 0 {
 			c.Violation("R11.1", fnName(fn)+"/rows", fn.Pos(), "no row of len(coldefs) is made")
